@@ -103,7 +103,8 @@ def main():
         for f in futs:
             r = f.result()
             results.append(r)
-            print("%-12s %-4s %-44s %s" % (r["result"], r["prop"], r["id"], (r.get("detail") or "").splitlines()[0][:150] if r["result"] not in ("caught", "silent") else ""))
+            first = ((r.get("detail") or "").splitlines() or [""])[0][:150]
+            print("%-12s %-4s %-44s %s" % (r["result"], r["prop"], r["id"], first if r["result"] not in ("caught", "silent") else ""))
     summary = {}
     for r in results:
         summary[r["result"]] = summary.get(r["result"], 0) + 1
